@@ -16,6 +16,7 @@
 import Alpaqa.Proofs.VecLemmas
 import Alpaqa.Props.C15
 import Alpaqa.Props.C06
+import Alpaqa.Gen.C01
 
 namespace Alpaqa.Props.C01
 open Alpaqa Alpaqa.Gen Alpaqa.Props.C06
@@ -165,7 +166,215 @@ theorem approxKKT_certifies [RealLike α] (prox : α → Vec α → Vec α → V
   certified_of_components γ tol hγ x g gh C hC
     (approxKKT_componentwise prox γ tol (projStepVO γ x g C) x xh yh g gh h)
 
+/-! ### The library's KKT-error utility (`compute_kkt_error`, kkt-error.hpp → `Gen.computeKktError`)
+
+What the four reported numbers are, for a problem whose `eval_prox_grad_step` is the projected-gradient
+step onto `C` (no ℓ₁ term) and whose `eval_proj_diff_g` is `z − Π_D(z)` (`BoxConstrProblem`), any
+dimension, any mix of finite / infinite / equal bounds:
+
+* `stationarity = ‖Π_C(x − ∇L(x,y)) − x‖∞` — the projected-gradient residual with step size 1.  It is
+  *not* the distance of `−∇L(x,y)` to `N_C(x)` (at an interior point next to a bound it is smaller),
+  but it certifies the same thing one projected-gradient step further: `stationarity ≤ ε` implies
+  that every coordinate of `−∇L(x,y)` is within `ε` of the normal cone of `C` at
+  `x̂ = Π_C(x − ∇L(x,y))` (`Certified 1 ε x ∇L ∇L C`, by `projStepO_normalCone`), and
+  `‖x̂ − x‖∞ ≤ ε`;
+* `constr_violation = ‖g(x) − Π_D(g(x))‖∞ = dist∞(g(x), D)`;
+* `complementarity = max_j |y_j · (g_j(x) − Π_D(g(x))_j)|` (zero whenever `g(x) ∈ D`, whatever `y`);
+* `bounds_violation = ‖Π_C(x) − x‖∞`, zero exactly when `x ∈ C`. -/
+
+/-- Projection of one coordinate onto an interval with optional bounds: `min(max(v, lb), ub)`. -/
+def projO (v : α) (lb ub : Option α) : α :=
+  let a := match lb with | none => v | some l => max v l
+  match ub with | none => a | some u => min a u
+
+/-- the projection applied componentwise (lock-step) -/
+def projVO : List α → List (Option α × Option α) → List α
+  | v :: vs, b :: bs => projO v b.1 b.2 :: projVO vs bs
+  | _, _ => []
+
+/-- `z − Π_D(z)` componentwise (`projecting_difference`, lock-step) -/
+def projDiffVO : List α → List (Option α × Option α) → List α
+  | z :: zs, b :: bs => (z - projO z b.1 b.2) :: projDiffVO zs bs
+  | _, _ => []
+
+/-- the step with `γ = 1` *is* `Π(x − g) − x` -/
+theorem projStepO_one (x g : α) (lb ub : Option α) :
+    projStepO 1 x g lb ub = projO (x - g) lb ub - x := by
+  unfold projStepO projO
+  cases lb <;> cases ub <;> simp only []
+  · ring
+  · rw [← min_sub_sub_right]; congr 1; ring
+  · rw [← max_sub_sub_right]; congr 1; ring
+  · rw [← min_sub_sub_right, ← max_sub_sub_right]; congr 2; ring
+
+theorem projStepVO_one : ∀ (x g : List α) (C : List (Option α × Option α)),
+    projStepVO 1 x g C = vsub (projVO (vsub x g) C) x
+  | x :: xs, g :: gs, b :: bs => by
+    simp only [projStepVO, vsub, vzip, List.zipWith_cons_cons, projVO]
+    rw [projStepO_one]
+    exact congrArg _ (projStepVO_one xs gs bs)
+  | [], _, _ => by simp [projStepVO, vsub, vzip, projVO]
+  | _ :: _, [], _ => by simp [projStepVO, vsub, vzip, projVO]
+  | _ :: _, _ :: _, [] => by simp [projStepVO, vsub, vzip, projVO]
+
+/-- the projection lands in the interval … -/
+theorem projO_inBox (v : α) (lb ub : Option α) (hb : ∀ l u, lb = some l → ub = some u → l ≤ u) :
+    InBox lb ub (projO v lb ub) := by
+  unfold InBox projO
+  cases lb <;> cases ub <;> simp only [Option.some.injEq, forall_eq', reduceCtorEq, false_imp_iff,
+    implies_true, true_and, and_true]
+  · exact min_le_right _ _
+  · exact le_max_right _ _
+  · rename_i l u
+    exact ⟨le_min (le_max_right _ _) (hb l u rfl rfl), min_le_right _ _⟩
+
+/-- … and is a nearest point of it: `|v − Π(v)| = dist(v, [lb, ub])`. -/
+theorem projO_nearest (v w : α) (lb ub : Option α) (hw : InBox lb ub w) :
+    |v - projO v lb ub| ≤ |v - w| := by
+  unfold InBox at hw
+  unfold projO
+  cases lb <;> cases ub <;> simp only [Option.some.injEq, forall_eq', reduceCtorEq, false_imp_iff,
+    implies_true, true_and, and_true] at hw ⊢
+  · simp
+  · rename_i u
+    rcases le_total v u with h | h
+    · rw [min_eq_left h]; simp
+    · rw [min_eq_right h, abs_of_nonneg (by linarith), abs_of_nonneg (by linarith)]; linarith
+  · rename_i l
+    rcases le_total l v with h | h
+    · rw [max_eq_left h]; simp
+    · rw [max_eq_right h, abs_of_nonpos (by linarith), abs_of_nonpos (by linarith)]; linarith
+  · rename_i l u
+    rcases le_total l v with h | h
+    · rw [max_eq_left h]
+      rcases le_total v u with h2 | h2
+      · rw [min_eq_left h2]; simp
+      · rw [min_eq_right h2, abs_of_nonneg (by linarith), abs_of_nonneg (by linarith [hw.2])]
+        linarith [hw.2]
+    · rw [max_eq_right h]
+      have hlu : l ≤ u := le_trans hw.1 hw.2
+      rw [min_eq_left hlu, abs_of_nonpos (by linarith), abs_of_nonpos (by linarith [hw.1])]
+      linarith [hw.1]
+
+/-- a point is its own projection exactly when it lies in the interval -/
+theorem projO_eq_self_iff (v : α) (lb ub : Option α) (hb : ∀ l u, lb = some l → ub = some u → l ≤ u) :
+    projO v lb ub = v ↔ InBox lb ub v := by
+  constructor
+  · intro h; rw [← h]; exact projO_inBox v lb ub hb
+  · intro h
+    have := projO_nearest v v lb ub h
+    simp only [sub_self, abs_zero, abs_nonpos_iff, sub_eq_zero] at this
+    exact this.symm
+
+/-- the NaN-ignoring running maximum of absolute values is `≤ c` iff every entry is (no NaN) -/
+theorem foldl_fmaxS_abs_le_iff [RealLike α] (hnn : ∀ a : α, RealLike.isNaN a = false) (c : α) :
+    ∀ (l : List α) (a : α),
+      l.foldl (fun acc ye => fmaxS acc (eabs ye)) a ≤ c ↔ a ≤ c ∧ ∀ ye ∈ l, |ye| ≤ c
+  | [], a => by simp
+  | ye :: l, a => by
+    simp only [List.foldl_cons]
+    rw [foldl_fmaxS_abs_le_iff hnn c l, fmaxS_eq_max hnn, eabs_eq_abs, max_le_iff]
+    simp only [List.mem_cons, forall_eq_or_imp]
+    tauto
+
+section kkt
+variable [RealLike α] (nan : α) (gradL : Vec α → Vec α → Vec α) (evalG : Vec α → Vec α)
+  (C D : List (Option α × Option α)) (x y : Vec α)
+
+/-- the utility on a box-constrained problem: `eval_prox_grad_step` = the projected-gradient step onto
+    `C`, `eval_proj_diff_g z = z − Π_D(z)`, `project(·, C)` -/
+def kktErrorBox : KKTError α :=
+  computeKktError nan gradL (fun γ x g => projStepVO γ x g C) evalG (fun z => projDiffVO z D) true
+    (fun v => projVO v C) x y
+
+/-- **kktError_sound.**  What `compute_kkt_error` reports (generated text, box-constrained problem):
+    (1) `stationarity = ‖Π_C(x − ∇L) − x‖∞`;
+    (2) `stationarity ≤ ε` ⇒ every coordinate of `−∇L(x,y)` is within `ε` of the normal cone of `C` at
+        `x̂ = Π_C(x − ∇L(x,y))` (`Certified` with step size 1: `x + p = x̂`);
+    (3) `constr_violation = ‖g(x) − Π_D(g(x))‖∞`, and `≤ δ` iff every row is within `δ` of its
+        interval (`projO_nearest`: that difference is the distance);
+    (4) `complementarity ≤ δ` iff `|y_j·(g_j − Π_D(g)_j)| ≤ δ` for every row;
+    (5) `bounds_violation = ‖Π_C(x) − x‖∞`, and `≤ δ` iff every coordinate is within `δ` of `C`. -/
+theorem kktError_sound (hnn : ∀ a : α, RealLike.isNaN a = false)
+    (hC : ∀ b ∈ C, ∀ l u, b.1 = some l → b.2 = some u → l ≤ u) :
+    (kktErrorBox nan gradL evalG C D x y).stationarity
+        = normInf (vsub (projVO (vsub x (gradL x y)) C) x) ∧
+    (∀ ε, (kktErrorBox nan gradL evalG C D x y).stationarity ≤ ε →
+      Certified 1 ε x (gradL x y) (gradL x y) C) ∧
+    (kktErrorBox nan gradL evalG C D x y).constr_violation = normInf (projDiffVO (evalG x) D) ∧
+    (∀ δ, 0 ≤ δ → ((kktErrorBox nan gradL evalG C D x y).constr_violation ≤ δ ↔
+      ∀ e ∈ projDiffVO (evalG x) D, |e| ≤ δ)) ∧
+    (∀ δ, 0 ≤ δ → ((kktErrorBox nan gradL evalG C D x y).complementarity ≤ δ ↔
+      ∀ ye ∈ vzip (· * ·) y (projDiffVO (evalG x) D), |ye| ≤ δ)) ∧
+    (kktErrorBox nan gradL evalG C D x y).bounds_violation = normInf (vsub (projVO x C) x) ∧
+    (∀ δ, 0 ≤ δ → ((kktErrorBox nan gradL evalG C D x y).bounds_violation ≤ δ ↔
+      ∀ e ∈ vsub (projVO x C) x, |e| ≤ δ)) := by
+  have hs : (kktErrorBox nan gradL evalG C D x y).stationarity
+      = normInf (projStepVO 1 x (gradL x y) C) := rfl
+  refine ⟨by rw [hs, projStepVO_one], fun ε h => ?_, rfl, fun δ hδ => normInf_le_iff _ _ hδ,
+    fun δ hδ => ?_, rfl, fun δ hδ => normInf_le_iff _ _ hδ⟩
+  · rw [hs] at h
+    apply certified_of_components 1 ε one_pos x (gradL x y) (gradL x y) C hC
+    intro e he
+    -- the residual `p/1 + (∇L − ∇L)` is the step itself
+    have hε : 0 ≤ ε := le_trans (normInf_nonneg _) h
+    have key : ∀ (p g : List α), (∀ a ∈ p, |a| ≤ ε) →
+        ∀ e ∈ vadd (smul (1 / (1:α)) p) (vsub g g), |e| ≤ ε := by
+      intro p
+      induction p with
+      | nil => intro g _ e he; simp [vadd, smul, vzip] at he
+      | cons a as ih =>
+        intro g hp e he
+        cases g with
+        | nil => simp [vadd, vsub, smul, vzip] at he
+        | cons b bs =>
+          simp only [vadd, vsub, smul, vzip, List.map_cons, List.zipWith_cons_cons, List.mem_cons] at he
+          rcases he with rfl | he
+          · have : 1 / (1:α) * a + (b - b) = a := by ring
+            rw [this]; exact hp a (List.mem_cons_self ..)
+          · exact ih bs (fun a' ha' => hp a' (List.mem_cons_of_mem _ ha')) e
+              (by simpa [vadd, vsub, smul, vzip] using he)
+    exact key _ _ ((normInf_le_iff _ _ hε).mp h) e he
+  · show (vzip (· * ·) y (projDiffVO (evalG x) D)).foldl (fun acc ye => fmaxS acc (eabs ye)) 0 ≤ δ ↔ _
+    rw [foldl_fmaxS_abs_le_iff hnn δ]
+    exact ⟨fun h => h.2, fun h => ⟨hδ, h⟩⟩
+
+/-- the certified point of (2) is the projected-gradient point, and it is within `stationarity` of `x` -/
+theorem kktError_shift (ε : α) (h : (kktErrorBox nan gradL evalG C D x y).stationarity ≤ ε) :
+    ∀ e ∈ projStepVO 1 x (gradL x y) C, |e| ≤ ε :=
+  fun e he => le_trans (abs_le_normInf _ e he) h
+
+end kkt
+
 /-! ### Non-vacuity -/
+section
+local instance instRealLikeRatKkt : RealLike ℚ := ⟨id, fun _ => false, fun _ => true⟩
+
+/-- `C = [0, ∞) × {2} × [0, 1]`, `x = (0, 2, ½)`, `∇L = (4, −7, −10)`, `g(x) = (3, −1)`,
+    `D = (−∞, 1] × [−1, −1]`, `y = (5, 9)`: stationarity `‖(0, 0, ½)‖∞ = ½` although the distance of
+    `−∇L` to `N_C(x)` is 10 (third coordinate interior); violation 2, complementarity `|5·2| = 10`,
+    `x ∈ C` -/
+def kktEx : KKTError ℚ := kktErrorBox (0 : ℚ) (fun _ _ => [4, -7, -10]) (fun _ => [3, -1])
+      [(some 0, none), (some 2, some 2), (some 0, some 1)] [(none, some 1), (some (-1), some (-1))]
+      [0, 2, 1/2] [5, 9]
+example : kktEx.stationarity = 1/2 ∧ kktEx.constr_violation = 2 ∧ kktEx.complementarity = 10 ∧
+    kktEx.bounds_violation = 0 := by decide +kernel
+
+/-- `kktError_sound` (2) on that instance, every hypothesis discharged: `−∇L` is within ½ of the normal
+    cone at `x̂ = (0, 2, 1)` -/
+example : Certified (1 : ℚ) (1/2) [0, 2, 1/2] [4, -7, -10] [4, -7, -10]
+    [(some 0, none), (some 2, some 2), (some 0, some 1)] :=
+  (kktError_sound (0 : ℚ) (fun _ _ => [4, -7, -10]) (fun _ => [3, -1])
+      [(some 0, none), (some 2, some 2), (some 0, some 1)] [(none, some 1), (some (-1), some (-1))]
+      [0, 2, 1/2] [5, 9] (fun _ => rfl)
+      (by intro b hb l u h1 h2
+          simp only [List.mem_cons, List.mem_nil_iff, or_false] at hb
+          rcases hb with rfl | rfl | rfl
+          · cases h2
+          · cases h1; cases h2; exact le_refl _
+          · cases h1; cases h2; norm_num)).2.1 (1/2) (by decide +kernel)
+end
+
 example : InNormalCone (some (0:ℚ)) none (0 + projStepO (1/2) 0 4 (some 0) none) (-(projStepO (1/2 : ℚ) 0 4 (some 0) none) / (1/2) - 4) :=
   projStepO_normalCone _ _ _ _ _ (by norm_num) (by simp)
 example : projStepO (1/2 : ℚ) 0 4 (some 0) none = 0 := by norm_num [projStepO]
